@@ -25,7 +25,7 @@ ASSUMPTIONS = ['only events CPython delivers to the trace function are in the qu
                'method tracepoints always carry method_name (the unnamed form is undocumented)']
 REQUIRE = {'reference_events': 50000, 'expected_actions': 2000, 'runs_with_threads': 10, 'colocated_runs': 40,
            'method_tracepoint_hits': 100,
-           'installed_via_convert_response': 60, 'updated_while_matching': 20, 'twin_file_runs': 60, 'explicit_stage_runs': 60}
+           'installed_via_convert_response': 60, 'updated_while_matching': 20, 'twin_file_runs': 60, 'explicit_stage_runs': 60, 'installed_while_program_running': 8}
 
 
 def plan(tier, seed):
@@ -152,12 +152,16 @@ def case_place(seed, out, spec, wd):
 
         def swapping(event, file, line_, function_name, frame):
             if not fired and event == 'line' and file == prog.base and (target is None or line_ == target[1]):
-                fired.append(1)
+                ev_ = rig.current_event()
+                fired.append(ev_.seq if ev_ is not None else 0)
                 rig.handler.new_config(list(keep))
             return orig(event, file, line_, function_name, frame)
 
         swapper.at_location = swapping
-        installed = [swapper] + keep
+        # sometimes the tracepoints arrive only now: until this event the agent had a configuration (so it is tracing)
+        # but nothing for this program's files; functions that are already running get their tracepoints as well
+        late_install = r.chance(0.4)
+        installed = [swapper] if late_install else [swapper] + keep
     rig.install(installed)
     actual = []   # (tp_id, kind, ev.seq)
 
@@ -198,8 +202,12 @@ def case_place(seed, out, spec, wd):
             by_func.setdefault((base, method), []).append((tp_id, expect))
     threads = set()
     method_hits = 0
+    installed_from = fired[0] if (mid_update and late_install and fired) else (
+        float('inf') if (mid_update and late_install) else -1)
     for ev in rig.events:
         threads.add(ev.tid)
+        if ev.seq <= installed_from:
+            continue
         if ev.kind == 'line':
             for tp_id, expect in by_line.get((ev.base, ev.line), ()):
                 expected.extend((tp_id, k, ev.seq) for k in expect)
@@ -241,6 +249,8 @@ def case_place(seed, out, spec, wd):
         out.count('installed_via_convert_response')
     if mid_update:
         out.count('updated_while_matching')
+        if late_install and fired:
+            out.count('installed_while_program_running')
     if twin:
         out.count('twin_file_runs')
     if explicit_stage:
